@@ -156,6 +156,77 @@ def check_equiv(L, N, nrows, ncols, a_size, res_size, a_sl, cpu, cn):
     return None, n
 
 
+def accumulation_depth(L, N, nrows, cpu):
+    """largest number of roundings on a path of the row accumulation of vmp_apply_dft_to_dft (fma counted twice), read off the
+    expressions it stores for an nrows x 2 matrix"""
+    from .C01 import _depth
+    s = Session(L, N, cpu)
+    adft = s.buf('a_dft', s.size('bytes_of_vec_znx_dft', [nrows]), 'in')
+    pmat = s.buf('pmat', s.size('bytes_of_vmp_pmat', [nrows, 2]), 'in')
+    res = s.buf('res', s.size('bytes_of_vec_znx_dft', [2]), 'out')
+    tmp = s.buf('tmp', s.size('vmp_apply_dft_to_dft_tmp_bytes', [2, nrows, nrows, 2]), 'scratch')
+    st, _ = s.call('vmp_apply_dft_to_dft', [s.mod, res, 2, adft, nrows, pmat, nrows, 2, tmp])
+    if st != 'ok':
+        return None
+    memo = {}
+    d = 0
+    for off, (sz, v) in s.state(res).items():
+        d = max(d, _depth(v, memo))
+    return d
+
+
+def error_budget(L, R, tier):
+    """B: column j = sum_i a_i * M[i][j] within the sum over the rows of the C01 budget.  With the transforms' a-priori bounds
+    rho_f, rho_i (C06 clause E) and d(r) roundings on the longest path of the r-row accumulation, the error before the final
+    rounding is at most sum_i [rho_f + (sqrt(2)*gamma_d(r) + rho_i)/2] * (|a_i|_1 ||M_ij||_2 + ||a_i||_2 |M_ij|_1); the bracket
+    is compared with 8*log2(N)*2^-53 for every (N, nrows) of a grid and the proved pairs are listed (the others are not
+    decided: the accumulation over many rows and the largest N leave no margin)."""
+    from concurrent.futures import ProcessPoolExecutor
+    from math import log2, sqrt
+    from .C06 import _error_bound_job
+    Ns = [4, 16, 64, 256] if tier == 'quick' else [4, 8, 16, 32, 64, 128, 256, 512, 1024]
+    rows = [1, 2, 3, 4] if tier == 'quick' else [1, 2, 3, 4, 6, 8]
+    jobs = [(nm, N // 2, cpu) for N in Ns for nm in ('reim_fft', 'reim_ifft') for cpu in ('generic', 'accel')]
+    with ProcessPoolExecutor(max_workers=min(12, len(jobs))) as ex:
+        res = dict(zip(jobs, ex.map(_error_bound_job, jobs)))
+    u = 2.0 ** -53
+    n = 0
+    for cpu in ('generic', 'accel'):
+        proved = {}
+        unk = None
+        for N in Ns:
+            rf, ri = res[('reim_fft', N // 2, cpu)], res[('reim_ifft', N // 2, cpu)]
+            if rf[0] != 'ok' or ri[0] != 'ok':
+                unk = unk or 'N=%d: transform bound not established' % N
+                continue
+            best = 0
+            for r in rows:
+                try:
+                    d = accumulation_depth(L, N, r, cpu)
+                except (Unsupported, NeedEnum) as e:
+                    R.broke('accumulation depth N=%d rows=%d: %s' % (N, r, e))
+                    d = None
+                n += 1
+                if d is None or d > 64:
+                    break
+                gm = d / (1 - d * u)
+                total = rf[1] + (sqrt(2) * gm + ri[1]) * (1 + rf[1] * u) / 2
+                if total <= 8 * log2(N):
+                    best = r
+                else:
+                    break
+            proved[N] = best
+        R.extra.setdefault('error_budget_rows', {})[cpu] = {str(k): v for k, v in proved.items()}
+        subj = 'vmp pipelines [%s]' % cpu
+        if unk or not proved or min(proved.values()) < 1:
+            R.ob('a-priori-vmp-error-within-the-summed-budget', subj, 'unknown',
+                 detail=unk or 'no row count proved for N in %s' % [k for k, v in proved.items() if v < 1])
+        else:
+            R.ob('a-priori-vmp-error-within-the-summed-budget', subj, 'holds',
+                 detail='proved for (N: up to nrows) %s; larger row counts / N are not decided' % proved)
+    return n
+
+
 def run(tier):
     R = Report('C02', tier)
     L = ctx.lib()
@@ -213,7 +284,9 @@ def run(tier):
                 R.ob(rule, subj, 'refuted', detail=bad[1], key=key, witness=dict(bad[0], cpu=cpu))
             else:
                 R.ob(rule, subj, 'holds')
-    R.evaluations = nlay + napp + neq
+    nb = error_budget(L, R, tier)
+    R.floor('accumulation kernels measured for the error budget', nb, 8)
+    R.evaluations = nlay + napp + neq + nb
     R.floor('layouts derived from the producer', nlay, 120)
     R.floor('apply instantiations compared with the bilinear definition', napp, 2000)
     R.floor('entry-point equivalence instantiations', neq, 200)
